@@ -374,3 +374,45 @@ mark(9);`
 	}
 	symx.Reach("end")
 }
+
+// H_abnormal: ways of leaving a try body that are not an ordinary script-level throw: an
+// interpreter-level failure inside the body (`throw` of a call that returns nothing: a Go panic
+// recovered by the try statement) and a throw coming out of an INCLUDED file (virtual file
+// system). finally runs exactly once, the matching catch handles the throwable.
+func H_abnormal() {
+	k := symx.Choose("case", 4)
+	defer symx.VCleanup()
+	symx.VReset()
+	root := symx.VRoot()
+	symx.VFile(root+"/inc.php", "<?php\nmark(5);\nthrow new Exception(\"from the included file\");\n")
+	symx.VFile(root+"/ok.php", "<?php\nmark(6);\nreturn 1;\n")
+	srcs := []string{
+		"function nothing() { }\ntry { try { mark(1); throw nothing(); } finally { mark(2); } } catch (Throwable $e) { mark(3); }\nmark(9);",
+		"function nothing() { }\ntry { mark(1); throw nothing(); } catch (Throwable $e) { mark(3); } finally { mark(2); }\nmark(9);",
+		"try { mark(1); include \"" + root + "/inc.php\"; mark(7); } catch (Exception $e) { mark(3); } finally { mark(2); }\nmark(9);",
+		"try { mark(1); include \"" + root + "/ok.php\"; mark(7); } catch (Exception $e) { mark(3); } finally { mark(2); }\nmark(9);",
+	}
+	want := [][]int{{1, 2, 3, 9}, {1, 3, 2, 9}, {1, 5, 3, 2, 9}, {1, 6, 7, 2, 9}}[k]
+	s := sx.Compile(srcs[k])
+	symx.Assert(s.Err == nil, "abnormal: parses")
+	if s.Err != nil {
+		return
+	}
+	_, ctl := s.Run()
+	var got []int
+	for _, o := range sx.Log {
+		if o.Kind == 'M' {
+			got = append(got, o.I)
+		}
+	}
+	// recorded finding: the program node of an included file hands an uncaught throwable straight to
+	// the VM's fatal-error handler instead of returning it to the include statement, so an enclosing
+	// try never sees it (the repository's own test runner relies on execution continuing after it)
+	known := k == 2
+	ok := ctl == nil && len(got) == len(want)
+	for i := 0; ok && i < len(want); i++ {
+		ok = got[i] == want[i]
+	}
+	symx.AssertKnown(ok, "abnormal exit "+string(rune('0'+k))+": the matching catch handles the throwable and finally runs exactly once", known, "C05-include-throw-bypasses-try")
+	symx.Reach("end")
+}
